@@ -64,10 +64,11 @@ def build(kind, seed):
         cf = doc.add_custom_format(name="Custom %d" % seed, type="number", num_decimals=2, show_thousands_separator=True)
         tb.write(1, 0, 1234.5)
         tb.set_cell_formatting(1, 0, "custom", format=cf)
-        tb.write(2, 1, "item 2")
-        tb.set_cell_formatting(2, 1, "popup", popup_values=["item 1", "item 2"], allow_none=False)
-        tb.write(2, 2, 5.0)
-        tb.set_cell_formatting(2, 2, "stepper", minimum=0, maximum=10, increment=1)
+        # (cells outside the rectangles that the "merges" feature merges: a hidden cell of a merged range takes no value)
+        tb.write(2, 0, "item 2")
+        tb.set_cell_formatting(2, 0, "popup", popup_values=["item 1", "item 2"], allow_none=False)
+        tb.write(0, 1, 5.0)
+        tb.set_cell_formatting(0, 1, "stepper", minimum=0, maximum=10, increment=1)
         tb.write(0, 2, True)
         tb.set_cell_formatting(0, 2, "tickbox")
     if kind in ("geometry", "all"):
